@@ -34,7 +34,7 @@ async fn run(mut s: Sim, mut rng: Rng, len: usize) -> Sim {
         let mut payer = rng.pick(&users[2..]).clone();
         let mut svc = if rng.chance(1, 25) { K::System } else { rng.pick(&svcs).clone() };
         let settle = rng.chance(3, 4) && !pending.is_empty();
-        let kind = rng.below(21);
+        let kind = rng.below(22);
         if settle && (6..=10).contains(&kind) { let (v, p) = rng.pick(&pending).clone(); svc = v; payer = p; }
         let honest = match kind {
             0..=5 => { // request access
@@ -68,6 +68,22 @@ async fn run(mut s: Sim, mut rng: Rng, len: usize) -> Sim {
             17 => s.pp_initialize(&payer),
             18 => { // configuration attempted by somebody who is not (or no longer) the admin
                 let who = rng.pick(&users).clone(); s.pp_configure(&who, PpSetting::BackupLimit(3)) }
+            21 => { // look-alikes: program data naming the attacker (loader-owned at a foreign address / other owners), forged config
+                let attacker = users[7].clone();
+                if rng.chance(1, 2) {
+                    let fake = K::User(710 + rng.below(2));
+                    let owner = if rng.chance(2, 3) { K::Loader } else { rng.pick(&[K::System, K::Rogue(1)]).clone() };
+                    s.forge_progdata(&attacker, &fake, &owner).await;
+                    let ix = s.pp_set_admin(&attacker, &attacker).with_key(0, &if rng.chance(3, 4) { fake } else { K::ProgData(b(&K::Rd)) });
+                    s.op(tx(vec![ix])).await;
+                } else {
+                    let fake = K::User(700 + rng.below(2));
+                    let owner = rng.pick(&[K::Rogue(2), K::System, K::Rd, K::Token]).clone();
+                    s.forge_pp_config(&attacker, &fake, &owner).await;
+                    let ix = match rng.below(3) { 0 => s.pp_configure(&attacker, PpSetting::BackupLimit(9)), 1 => s.pp_grant(&attacker, &svc, &payer), _ => s.pp_deny(&attacker, &svc) };
+                    s.op(tx(vec![ix.with_key(0, &fake)])).await;
+                }
+                continue; }
             19 => { // two settlements of the same request in one transaction; a request whose payer is the (pre-funded) request address itself
                 match rng.below(3) {
                     0 => { let a = s.pp_grant(&sentinel, &svc, &payer); let b2 = s.pp_grant(&sentinel, &svc, &payer); s.op(tx(vec![a, b2])).await; }
